@@ -214,6 +214,21 @@ func diffLines(a, b string) string {
 	return strings.Join(out, "\n")
 }
 
+// changedDefs returns the declarations of base 1 after a semantic edit that
+// leaves the text of the invocation (include + top-level call) unchanged.
+func changedDefs(bs []func() *progen.Program, call string) string {
+	for _, k := range []string{"add-stage-out", "retarget-return", "toggle-split", "add-stage-in"} {
+		p := bs[1]()
+		if !progen.ApplyEdit(p, k, 0) {
+			continue
+		}
+		if d2, c2 := splitProgram(p); c2 == call {
+			return d2
+		}
+	}
+	return ""
+}
+
 func lockHistories(r *ev.Run, bs []func() *progen.Program) {
 	p := bs[1]()
 	var stages []string
@@ -233,6 +248,18 @@ func lockHistories(r *ev.Run, bs []func() *progen.Program) {
 		r.Report(ev.Finding{Sig: "C15:lock:attach-after-unlock", What: "attach with the identical invocation after unlock returned " + got, Case: Case{Base: 1, Kind: "lock-released"}})
 	}
 	r.Outcome("lock-histories")
+	// the lock as a protocol: every operation sequence up to a depth, in lock
+	// step with a reference model
+	d2 := changedDefs(bs, c)
+	if d2 == "" {
+		r.Inconclusive("lock protocol: no semantic edit of the declarations applies to base 1")
+		return
+	}
+	depth := 3
+	if r.Thorough() {
+		depth = 5
+	}
+	psx.LockProtocol(r, stages, d, c, d2, cosmeticText("comments", d), depth)
 }
 
 func main() {
@@ -248,6 +275,23 @@ func main() {
 		}
 		r.Eval("replay")
 		r.Sample(c)
+		if c.Kind == "lock-protocol" {
+			var ls psx.LockSeq
+			ev.LoadReplay(r.ReplayPath, &ls)
+			p := bs[1]()
+			var stages []string
+			for _, s := range p.Stages {
+				stages = append(stages, s.Name)
+			}
+			d, cl := splitProgram(p)
+			d2 := changedDefs(bs, cl)
+			msg, trace := psx.RunLockSeq(stages, d, cl, d2, cosmeticText("comments", d), ls.Ops)
+			fmt.Println(strings.Join(trace, "\n"))
+			if msg != "" {
+				r.Report(ev.Finding{Sig: "C15:lock:" + ls.Ops[len(ls.Ops)-1], What: msg, Case: ls})
+			}
+			r.Finish()
+		}
 		if strings.HasPrefix(c.Kind, "lock") {
 			lockHistories(r, bs)
 			r.Finish()
